@@ -567,6 +567,20 @@ func runC05(c *Ctx) {
 			}
 		}
 		if nSplit == 0 {
+			// the pieces may be cut by a scan at a constant character set instead
+			if k, _, ok := cutScanSplitter(g, s); ok {
+				nSplit++
+				missing := ""
+				for _, m := range meta {
+					if !strings.ContainsRune(k, m) {
+						missing += string(m)
+					}
+				}
+				c.Check(missing == "", "C05.R4", "splitter set of the cutting scan contains every RE2 metacharacter", regexX.Pos(), fmt.Sprintf("strings.IndexAny(text, %q)", k),
+					"the scan does not cut at "+fmt.Sprintf("%q", missing)+": the metacharacter would end up inside a shortcut")
+			}
+		}
+		if nSplit == 0 {
 			c.Fail("C05.R4", shortFn(regexX)+": splitter class", regexX.Pos(), "UNDECIDED: no character-class splitter among the constant expressions it uses")
 		}
 		// ---------- R7: the strippers that need a character in front of the bracket get one ----------
@@ -706,6 +720,88 @@ var regexSamples = []regexSample{
 	{`qqqqx?zzzz`, []string{"qqqqzzzz"}, "optional character"},
 }
 
+// cutScanSplitter recognises the candidate pieces being cut by a scan instead
+// of a regexp split: a loop-carried text t, in every iteration i =
+// strings.IndexAny(t, K) with K constant, and t continues as t[i+1:].  The
+// pieces are then the maximal runs free of the characters of K, as with a split
+// on the class [K].  It returns K and the text the scan starts from.
+func cutScanSplitter(g *Gate, s *Summary) (set string, text *E, ok bool) {
+	u := g.U
+	for _, li := range loopInsts(g, s) {
+		for _, in := range li.L.Header.Instrs {
+			ph, isPhi := in.(*ssa.Phi)
+			if !isPhi {
+				break
+			}
+			if !isStringT(ph.Type()) {
+				continue
+			}
+			p := li.Act.Env[ph]
+			if p == nil {
+				continue
+			}
+			var init *E
+			k, okAll, n := "", true, 0
+			for i, pr := range li.L.Header.Preds {
+				v := li.Act.Env[ph.Edges[i]]
+				if v == nil {
+					if cv, isC := ph.Edges[i].(*ssa.Const); isC && cv.Value != nil {
+						v = u.ConstVal(cv.Value, cv.Type())
+					}
+				}
+				if !li.L.Blocks[pr] {
+					init = v
+					continue
+				}
+				n++
+				// v = p[IndexAny(p, K)+1:]
+				if v == nil || v.Op != "slice" || v.Args[0] != p || v.Args[2] != nil || v.Args[1] == nil {
+					okAll = false
+					continue
+				}
+				lo := v.Args[1]
+				var idx *E
+				if lo.Op == "bin" && lo.Aux == "+" {
+					for j := 0; j < 2; j++ {
+						if c1, isI := lo.Args[j].IntVal(); isI && c1 == 1 {
+							idx = lo.Args[1-j]
+						}
+					}
+				}
+				if idx == nil || idx.Op != "call" || idx.Aux != "strings.IndexAny" || len(idx.Args) != 2 || idx.Args[0] != p {
+					okAll = false
+					continue
+				}
+				kv, isK := idx.Args[1].StrVal()
+				if !isK || (k != "" && kv != k) {
+					okAll = false
+					continue
+				}
+				k = kv
+			}
+			if okAll && n > 0 && k != "" && init != nil {
+				return k, init, true
+			}
+		}
+	}
+	return "", nil, false
+}
+
+// classOf is the character class [K] as a regular expression.
+func classOf(k string) string {
+	var sb strings.Builder
+	sb.WriteString("[")
+	for _, r := range k {
+		if r == '-' {
+			sb.WriteString(`\-`)
+			continue
+		}
+		sb.WriteString(regexp.QuoteMeta(string(r)))
+	}
+	sb.WriteString("]")
+	return sb.String()
+}
+
 func checkRegexHeuristicTable(c *Ctx, g *Gate, s *Summary, regexX *ssa.Function) {
 	u := g.U
 	isRepl := func(x *E) bool {
@@ -736,18 +832,25 @@ func checkRegexHeuristicTable(c *Ctx, g *Gate, s *Summary, regexX *ssa.Function)
 			split = x
 		}
 	}
-	if split == nil {
-		c.Fail("C05.R8", shortFn(regexX)+": pipeline", regexX.Pos(), "UNDECIDED: the candidate pieces are not produced by (*regexp.Regexp).Split on a constant expression")
+	var splitPat string
+	var okS bool
+	var splitText *E
+	if split != nil {
+		splitPat, okS = constRe(split.Args[0])
+		splitText = split.Args[1]
+	} else if k, text, ok := cutScanSplitter(g, s); ok {
+		splitPat, okS, splitText = classOf(k), true, text
+	} else {
+		c.Fail("C05.R8", shortFn(regexX)+": pipeline", regexX.Pos(), "UNDECIDED: the candidate pieces are not produced by (*regexp.Regexp).Split on a constant expression, nor by a scan cutting at a constant character set")
 		return
 	}
-	splitPat, okS := constRe(split.Args[0])
 	type stage struct {
 		pat, repl string
 		literal   bool
 		text      *E // the text this stage produces
 	}
 	var stages []stage
-	t := split.Args[1]
+	t := splitText
 	okChain := okS
 	for isRepl(t) {
 		pat, ok1 := constRe(t.Args[0])
